@@ -483,6 +483,16 @@ class IRGenerator:
                             'detected.' %
                             (quote(namespace.name), quote(item.target)),
                             item.lineno, item.path)
+                    existing = env.get(item.target)
+                    if existing is not None and \
+                            not isinstance(existing, Environment):
+                        # The import would silently replace a symbol of
+                        # this namespace (or a built-in type) of that name.
+                        raise InvalidSpec(
+                            'Name of imported namespace %s conflicts with '
+                            'a symbol already defined in namespace %s.' %
+                            (quote(item.target), quote(namespace.name)),
+                            item.lineno, item.path)
                     env[item.target] = imported_env
 
     @staticmethod
